@@ -6,6 +6,7 @@
     iso.time <hex> [b]               parse_isotime
     iso.tz <0|1> <hex> [b]           parse_tzstr(s, zero_as_utc)
     iso.recognise <strict> <sep|-> <hex>   spec: every value the string denotes, `|`-separated
+                                     (strict: 0 lax weeks, 1 strict, 2 strict without digit separators)
     iso.recdate <strict> <hex> / iso.rectime <hex> / iso.rectz <0|1> <hex>
     iso.render <df> <tf> <of> <sep> [year,a,b,hh,mm,ss,neg,oh,om] [frac digits]
         -> ok <hex> <lax-wf> <strict-wf> <denotation>
@@ -76,7 +77,8 @@ def handle (op : String) (args : List String) : Option String :=
         | none => some none
         | some [c] => some (some c)
         | some _ => none
-      some (showVals ((IsoSpec.recognise (strict != "0") cfg s).map IsoT.Value.wire))
+      some (showVals ((if strict == "2" then IsoSpec.recogniseNoDigitSep true cfg s
+                       else IsoSpec.recognise (strict != "0") cfg s).map IsoT.Value.wire))
   | "iso.recdate", [strict, hex] => do
       let s ← bytes? hex
       some (showVals ((IsoSpec.recogniseDate (strict != "0") s).map show3))
